@@ -73,6 +73,17 @@ def regen_consts():
     return r.stdout
 
 
+def use_pinned_consts():
+    """coq/gen/Consts.v := the committed copy of the constants the proofs were made for (coq/gen/Consts.pinned).  Used only to
+    search for a failing input after the model failed to build against the regenerated constants; the next run regenerates."""
+    src = os.path.join(COQ, 'gen', 'Consts.pinned')
+    dst = os.path.join(COQ, 'gen', 'Consts.v')
+    if not os.path.exists(src) or open(src).read() == open(dst).read():
+        return False
+    shutil.copy(src, dst)
+    return True
+
+
 def regen_hash_vectors():
     """64 hash vectors computed by the crate on this run -> coq/gen/Hash_vectors.v (Examples by vm_compute)."""
     rng = random.Random(20260926)
@@ -273,10 +284,8 @@ def same(op, impl, model):
             if idd.get(k) != v:
                 return False
         return True
-    if kind in ('getstr', 'delstr'):
-        return impl == lossy(model)
-    if kind in ('bulkgetstr', 'bulkdelstr'):
-        return impl == ' '.join(lossy(t) for t in model.split())
+    # getstr / delstr / bulkgetstr / bulkdelstr: the model line comes from Strings.sstep, which has applied Utf8.lossy to every
+    # value already - the crate's *_string calls are compared with the Coq function itself (plain equality, above)
     return False
 
 
@@ -344,9 +353,28 @@ def compare_segments(segments, workdir, dump=False, release=False, op_timeout=20
     return res
 
 
+UNDER_LIMIT = ('flush', 'syncall', 'syncdata', 'dbsyncall', 'dbsyncdata', 'dirty', 'snap', 'get', 'len', 'has', 'empty', 'iter', 'trace', 'unlimit', 'limit')
+
+
+def well_formed_limits(ops):
+    """the generators lower the file-size limit only around flush/sync calls and reads and always lift it again; a candidate of
+    the shrinker that creates, opens, updates or closes a map under a limit (because its `unlimit` was cut out) is another
+    experiment - the model does not describe it - and must not replace the history that failed."""
+    on = False
+    for l in ops:
+        k = l.split()[0]
+        if on and k not in UNDER_LIMIT:
+            return False
+        if k == 'limit': on = True
+        if k == 'unlimit': on = False
+    return not on
+
+
 def shrink(ops, failing, budget=120):
     """delta debugging on the op list; `failing(ops) -> bool`. setup ops (db/map) are kept."""
     keep = lambda l: l.split()[0] in ('db', 'map', 'dbclone', 'mapclone')
+    failing0 = failing
+    failing = lambda cand: well_formed_limits(cand) and failing0(cand)
     cur = list(ops)
     n = 2
     tries = 0
